@@ -144,6 +144,90 @@ theorem liquidity_stake_rewards_le (T totalPct : Int) (tokens : List (Int × Lis
   have h2 : T * (tokens.map (·.1)).sum ≤ T * totalPct := Int.mul_le_mul_of_nonneg_left hsum hT
   exact Int.le_of_mul_le_mul_right (Int.le_trans h1 h2) hp
 
+/-! ### T2 — the pillar formula -/
+
+/-- T2 `pillar_epoch_bound`: for epoch statistics in which every pillar produced at most the momentums expected of it,
+    the pillar weights sum to at most the total weight, and the uint64 sum of expected momentums does not wrap, the
+    TotalRewards of all pillars (`computePillarRewardForEpoch`) sum to at most
+    (delegation per momentum + producing per momentum) · (total expected momentums). -/
+theorem pillar_epoch_bound (d p W : Int) (ps : List PillarStat) (hd : 0 ≤ d) (hp : 0 ≤ p) (hW : 0 ≤ W)
+    (hprod : ∀ s ∈ ps, s.produced ≤ s.expected) (hw : ∀ s ∈ ps, 0 ≤ s.weight)
+    (hsum : (ps.map (·.weight)).sum ≤ W) (hE : (ps.map (·.expected)).sum < two64) :
+    (ps.map (fun s => (pillarRewardForEpoch d p W ps s).total)).sum ≤
+      (d + p) * ((ps.map (·.expected)).sum : Nat) := by
+  have hEq : totalExpected ps = (ps.map (·.expected)).sum := Nat.mod_eq_of_lt hE
+  unfold pillarRewardForEpoch
+  rw [hEq]
+  generalize hEdef : (((ps.map (·.expected)).sum : Nat) : Int) = E
+  have hE0 : 0 ≤ E := by rw [← hEdef]; exact Int.natCast_nonneg _
+  obtain ⟨h1, h2, h3⟩ := pillar_sums d p W E hd hp hW hE0 ps hprod hw
+  rw [hEdef] at h2
+  -- total = block + delegation, pointwise
+  have htot : ∀ qs : List PillarStat,
+      (qs.map (fun s => (pillarRewardWith d p W E s).total)).sum =
+      (qs.map (fun s => (pillarRewardWith d p W E s).block)).sum +
+      (qs.map (fun s => (pillarRewardWith d p W E s).delegation)).sum := by
+    intro qs
+    induction qs with
+    | nil => simp
+    | cons s qs ih =>
+      simp only [List.map_cons, List.sum_cons, ih]
+      have : (pillarRewardWith d p W E s).total =
+          (pillarRewardWith d p W E s).block + (pillarRewardWith d p W E s).delegation := by
+        unfold pillarRewardWith; split <;> simp
+      omega
+  rw [htot ps]
+  have hdel : (ps.map (fun s => (pillarRewardWith d p W E s).delegation)).sum ≤ d * E := by
+    by_cases hW0 : W = 0
+    · -- no delegation reward at all when the total weight is zero
+      have : ∀ qs : List PillarStat, (qs.map (fun s => (pillarRewardWith d p W E s).delegation)).sum = 0 := by
+        intro qs
+        induction qs with
+        | nil => simp
+        | cons s qs ih =>
+          simp only [List.map_cons, List.sum_cons, ih]
+          unfold pillarRewardWith; split <;> simp [hW0]
+      rw [this]; exact Int.mul_nonneg hd hE0
+    · have hWpos : 0 < W := by omega
+      have h4 : d * E * (ps.map (·.weight)).sum ≤ d * E * W :=
+        Int.mul_le_mul_of_nonneg_left hsum (Int.mul_nonneg hd hE0)
+      exact Int.le_of_mul_le_mul_right (Int.le_trans h1 h4) hWpos
+  rw [Int.add_mul]
+  omega
+
+/-- with at most `MomentumsPerEpoch` expected momentums in the epoch (24 h of 10 s slots) and the per-momentum rewards
+    of `emission_tables`, all pillars together stay within the pillar part d·MPE + p·MPE of the epoch's emission -/
+theorem pillar_epoch_within_emission (d p W : Int) (ps : List PillarStat) (hd : 0 ≤ d) (hp : 0 ≤ p) (hW : 0 ≤ W)
+    (hprod : ∀ s ∈ ps, s.produced ≤ s.expected) (hw : ∀ s ∈ ps, 0 ≤ s.weight)
+    (hsum : (ps.map (·.weight)).sum ≤ W)
+    (hslots : (((ps.map (·.expected)).sum : Nat) : Int) ≤ Gen.MomentumsPerEpoch) :
+    (ps.map (fun s => (pillarRewardForEpoch d p W ps s).total)).sum ≤
+      d * Gen.MomentumsPerEpoch + p * Gen.MomentumsPerEpoch := by
+  have hE : (ps.map (·.expected)).sum < two64 := by
+    simp only [Gen.MomentumsPerEpoch, two64] at *; omega
+  have h := pillar_epoch_bound d p W ps hd hp hW hprod hw hsum hE
+  have h2 : (d + p) * (((ps.map (·.expected)).sum : Nat) : Int) ≤ (d + p) * Gen.MomentumsPerEpoch :=
+    Int.mul_le_mul_of_nonneg_left hslots (by omega)
+  have e1 := Int.add_mul d p Gen.MomentumsPerEpoch
+  omega
+
+/-- negative witness: the premise produced ≤ expected is necessary — a pillar credited with 2 produced momentums where
+    1 was expected receives more than (d+p)·E -/
+theorem pillar_bound_needs_produced_le_expected :
+    ∃ (ps : List PillarStat), (ps.map (·.weight)).sum ≤ 1 ∧
+      ¬ (ps.map (fun s => (pillarRewardForEpoch 10 10 1 ps s).total)).sum ≤ (10 + 10) * ((ps.map (·.expected)).sum : Nat) :=
+  ⟨[⟨2, 1, 1⟩], by decide⟩
+
+/-- negative witness: the premise Σ weightᵢ ≤ TotalWeight is necessary -/
+theorem pillar_bound_needs_weight_sum :
+    ∃ (ps : List PillarStat), (∀ s ∈ ps, s.produced ≤ s.expected) ∧
+      ¬ (ps.map (fun s => (pillarRewardForEpoch 10 10 1 ps s).total)).sum ≤ (10 + 10) * ((ps.map (·.expected)).sum : Nat) :=
+  ⟨[⟨1, 1, 2⟩], by decide⟩
+
+example : ∃ ps : List PillarStat, ps.length = 2 ∧ (∀ s ∈ ps, s.produced ≤ s.expected) ∧ (ps.map (·.weight)).sum ≤ 10 ∧
+    (ps.map (fun s => (pillarRewardForEpoch 7 5 10 ps s).total)).sum = 93 :=
+  ⟨[⟨3, 4, 6⟩, ⟨5, 5, 4⟩], by decide⟩
+
 /-! ### T3 — emission tables -/
 
 /-- the percentage split of each coin does not exceed 100 -/
@@ -152,19 +236,6 @@ theorem percentages_le_100 :
       Gen.LiquidityZnnRewardPercentage ≤ 100 ∧
     Gen.StakingQsrRewardPercentage + Gen.SentinelQsrRewardPercentage + Gen.LiquidityQsrRewardPercentage ≤ 100 := by
   decide
-
-/-- the ZNN pieces computed (in wrapping int64 arithmetic) from a network emission `n` exist, are non-negative, and a
-    whole epoch of pillar rewards plus sentinel plus liquidity stays within `n` -/
-def znnOK (n : Int) : Bool :=
-  match znnPieces n with
-  | some (d, p, s, l) =>
-    decide (0 ≤ d ∧ 0 ≤ p ∧ 0 ≤ s ∧ 0 ≤ l ∧ d * Gen.MomentumsPerEpoch + p * Gen.MomentumsPerEpoch + s + l ≤ n)
-  | none => false
-
-def qsrOK (n : Int) : Bool :=
-  match qsrPieces n with
-  | some (st, s, l) => decide (0 ≤ st ∧ 0 ≤ s ∧ 0 ≤ l ∧ st + s + l ≤ n)
-  | none => false
 
 /-- every entry of the regenerated ZNN and QSR tables passes (finite check over the whole table) -/
 theorem tables_ok :
